@@ -249,6 +249,43 @@ func H_jsStruct(t int, es6 bool) {
 				verifAssert(jsCount(out, "\n"+tn.Name+" = function(opt_data, opt_sb, opt_ijData) {") == 1, "no single function definition under the qualified name of "+tn.Name)
 			}
 		}
+		if !es6 {
+			// every prefix of the namespace is declared, outermost first, before the first function
+			ns := ""
+			for _, n := range f.Body {
+				if nn, ok := n.(*ast.NamespaceNode); ok {
+					ns = nn.Name
+				}
+			}
+			firstFn := len(out)
+			for i := 0; i+10 <= len(out); i++ {
+				if out[i:i+10] == " function(" {
+					firstFn = i
+					break
+				}
+			}
+			last := -1
+			for i := 0; i <= len(ns); i++ {
+				if i < len(ns) && ns[i] != '.' {
+					continue
+				}
+				decl := "if (typeof " + ns[:i] + " == 'undefined') { "
+				if last < 0 {
+					decl += "var "
+				}
+				decl += ns[:i] + " = {}; }\n"
+				at := -1
+				for k := 0; k+len(decl) <= firstFn; k++ {
+					if out[k:k+len(decl)] == decl {
+						at = k
+						break
+					}
+				}
+				verifAssert(at >= 0, "a namespace object is not declared before the functions that live in it: "+ns[:i])
+				verifAssert(at > last, "namespace objects are not declared outermost first")
+				last = at
+			}
+		}
 		// braces, brackets and parentheses balance outside string literals and comments
 		depth, par, brk := 0, 0, 0
 		for i := 0; i < len(out); i++ {
